@@ -319,5 +319,15 @@ def preset_stmt(cg, kind):
             pass   # condition: any scalar type, created lazily
         elif kind == 'ND_GOTO_EXPR':
             n.fields['lhs'] = cg.node('lhs', ty=cg.tcell('lhs.ty', only=('ptr',)))
+        elif kind == 'ND_RETURN':
+            # the operand has the function's return type; aggregates with a few concrete sizes
+            t = cg.tcell('lhs.ty', only=SCALAR + ('struct', 'union'), agg_sizes=(4, 8, 12, 16, 24))
+            lhs = cg.node('lhs', ty=t)
+            from ..interp import Cell
+            n.fields['lhs'] = View(Cell([0, lhs], 'node.lhs'))
+            fty = Obj('Type', lazy=True, label='fnty'); fty.fields['return_ty'] = t
+            hp = Obj('Obj', lazy=True, label='hidden-param'); hp.fields['offset'] = Sym('hidden.offset', 'int')
+            fn = Obj('Obj', lazy=True, label='current_fn'); fn.fields['ty'] = fty; fn.fields['params'] = hp; fn.fields['name'] = 'f'
+            ctx.globals['current_fn'] = fn
         return n
     return mk
